@@ -19,9 +19,9 @@ Lemma pres_mret : forall s c s' l, Inv s -> step s c = Some (s', l) -> mret s' =
 Proof.
   intros s c s' l I H. pose proof (i_mret s I) as M.
   destruct c as [e|w e|]; simpl in H.
-  - io_cases H; prep; auto.
-  - wk_cases H; prep; auto.
-  - sd_cases H; prep; auto.
+  - io_cases H; close2.
+  - wk_cases H; close2.
+  - sd_cases H; close2.
 Qed.
 
 Lemma pres_cwf : forall s c s' l, Inv s -> step s c = Some (s', l) ->
@@ -48,4 +48,107 @@ Proof.
     + destruct X as (_ & _ & _ & ST & _). specialize (ST w). rewrite Heqw0 in ST. discriminate.
     + destruct AX as [_ AX]; auto. congruence.
   - sd_cases H; close2.
+Qed.
+
+(* ---- Closed is stable (unless the channel is disconnected) ------------------------------- *)
+Ltac lockc := match goal with
+  | LW : rlock ?s = Some (ByW ?w) <-> true = true, LW0 : rlock ?s = Some (ByW ?w0) <-> true = true |- _ =>
+      let A := fresh in let B := fresh in
+      pose proof (proj2 LW eq_refl) as A; pose proof (proj2 LW0 eq_refl) as B; congruence
+  end.
+Ltac contra := exfalso; first [ congruence | lia | lockc ].
+Ltac t_flags := solve [ intuition (try congruence; try discriminate) ].
+Ltac t_nots := repeat split; solve [discriminate | assumption | congruence].
+Ltac t_starter ST := first [ exact ST
+  | let w1 := fresh "w1" in intro w1;
+    match goal with |- context [if ?a =? ?b then _ else _] =>
+      destruct (Nat.eqb_spec a b); [reflexivity | apply ST] end ].
+Ltac t_c2 := first [ left; solve [assumption | reflexivity]
+  | right; match goal with C2 : at_close2 (wk ?s ?w0) = true |- _ =>
+      exists w0; simpl;
+      first [ exact C2
+            | match goal with N : w0 <> ?w |- _ => rewrite (proj2 (Nat.eqb_neq w0 w) N); exact C2 end ] end ].
+Ltac t_closed ST := first [ solve [contra] | solve [left; reflexivity]
+  | right; split; [t_flags | split; [t_nots | split; [ solve [assumption | reflexivity] | split; [t_starter ST | t_c2]]]]
+  | solve [exfalso; intuition (try congruence; try discriminate; try lockc)] ].
+
+Lemma closed_pres : forall s c s' l, Inv s -> Closed s -> step s c = Some (s', l) ->
+  conn s' = false \/ Closed s'.
+Proof.
+  intros s c s' l I C H. unfold Closed, flags_ok in *.
+  destruct C as (F & (N1 & N2 & N3) & Q & ST & C2).
+  destruct c as [e|w e|]; simpl in H.
+  - destruct (i_mret s I) as [MR|MR]; destruct C2 as [R|[w0 C2]]; io_cases H; prep;
+    first [ t_closed ST | leftover ].
+  - pose proof (i_lock_wk s I w) as LW. pose proof (ST w) as STw.
+    destruct C2 as [R|[w0 C2]].
+    + wk_cases H; prep; first [ t_closed ST | leftover ].
+    + pose proof (i_lock_wk s I w0) as LW0. 
+      assert (HW0 : wk_holds (wk s w0) = true) by (destruct (wk s w0); simpl in *; congruence).
+      rewrite HW0 in LW0.
+      wsplit w0 w; wk_cases H; prep; first [ t_closed ST | leftover ].
+  - destruct C2 as [R|[w0 C2]]; sd_cases H; prep; first [ t_closed ST | leftover ].
+Qed.
+
+Lemma conn_mono : forall s c s' l, step s c = Some (s', l) -> conn s = false -> conn s' = false.
+Proof.
+  intros s c s' l H C. destruct c as [e|w e|]; simpl in H.
+  - io_cases H; close2.
+  - wk_cases H; close2.
+  - sd_cases H; close2.
+Qed.
+
+Lemma sdc2_pres : forall s c s' l, step s c = Some (s', l) -> sd s = SdC2 -> conn s' = false \/ sd s' = SdC2.
+Proof.
+  intros s c s' l H C. destruct c as [e|w e|]; simpl in H.
+  - io_cases H; close2.
+  - wk_cases H; close2.
+  - sd_cases H; close2.
+Qed.
+
+Lemma empty_facts : forall s, Inv s -> reqs s = [] -> queue s = 0 /\ forall w, starter (wk s w) = false.
+Proof.
+  intros s I R. split.
+  - pose proof (i_q1 s I) as Q1. pose proof (i_reqs_q s I) as RQ.
+    destruct (queue s) as [|[|n]]; auto; [exfalso; apply RQ; auto | lia].
+  - intro w. pose proof (i_reqs_wk s I w) as RW.
+    destruct (wk s w); simpl in *; auto; exfalso; apply RW; auto.
+Qed.
+
+Lemma pres_safe : forall s c s' l, Inv s -> step s c = Some (s', l) ->
+  gdec s' = true -> conn s' = false \/ Closed s' \/ sd s' = SdC2.
+Proof.
+  intros s c s' l I H G'. destruct (gdec s) eqn:G.
+  - destruct (i_safe s I G) as [X|[X|X]].
+    + left. eapply conn_mono; eauto.
+    + destruct (closed_pres s c s' l I X H); auto.
+    + destruct (sdc2_pres s c s' l H X); auto.
+  - pose proof (i_cwf s I) as CW. rewrite G in CW.
+    destruct c as [e|w e|]; simpl in H.
+    + pose proof (i_m2 s I) as M2. pose proof (i_q1 s I) as Q1.
+      pose proof (i_reqs_q s I) as RQ. pose proof (i_reqs_wk s I) as RW.
+      destruct (i_mret s I) as [MR|MR]; io_cases H; prep; try congruence; try solve [heavy].
+      all: destruct (empty_facts s I (M2 eq_refl)) as [Q0 ST]; right; left;
+        unfold Closed, flags_ok; simpl; rw; repeat split; auto; try discriminate;
+        right; left; split; [reflexivity | discriminate].
+    + wk_cases H; prep; try congruence; try solve [heavy].
+      (* WClose1: the worker's close decision *)
+      right; left. unfold Closed, flags_ok; simpl.
+      assert (A : active (wk s w) = true) by (rewrite Heqw0; reflexivity).
+      assert (HL : rlock s = Some (ByW w)) by (apply (i_lock_wk s I w); rewrite Heqw0; reflexivity).
+      pose proof (i_lock_io s I) as LI.
+      assert (NH : io_holds (io s) = false).
+      { destruct (io_holds (io s)) eqn:E; auto. destruct LI as [_ LI]. specialize (LI eq_refl). congruence. }
+      split; [left; reflexivity|].
+      split; [repeat split; intro E; rewrite E in NH; discriminate|].
+      split.
+      { pose proof (i_q1 s I) as Q1. pose proof (i_q_excl s I) as QX.
+        destruct (queue s) as [|[|n]]; auto; [|lia].
+        destruct (QX eq_refl) as [QA _]. specialize (QA w). congruence. }
+      split.
+      { intro w1. destruct (Nat.eqb_spec w1 w); [reflexivity|].
+        destruct (starter (wk s w1)) eqn:S1; auto. exfalso. apply n.
+        apply (i_act_uniq s I); auto. destruct (wk s w1); simpl in *; auto; discriminate. }
+      right. exists w. rewrite Nat.eqb_refl. reflexivity.
+    + sd_cases H; prep; try congruence; solve [heavy].
 Qed.
